@@ -486,11 +486,14 @@ PROPS = {
         "suites": [("simplify", 1500, 40000)],
         "rule": "as C07(b): every portfolio x strategy on seeded formulas; the harness runs its own bounded fixpoint loop (64 passes) and, when it converges, "
                 "the real Apply::apply_fixpoint, and requires equal results; any timeout is reported",
-        "level_text": "Partial: fixpoint_idempotent / fixpoint_stable proved for every operation and pass bound (result of a converged loop is a fixpoint, simplifying again "
-                      "returns it unchanged); determinism is definitional for the model and is the content of the tie for the implementation; termination of the loop is "
-                      "not proved (no measure yet) - the correspondence reports any input exceeding 64 passes.",
+        "level_text": "Termination and idempotence: full for the model. fixpoint_terminates - for every portfolio and every formula some pass leaves the formula unchanged (each of the 15 rewrites either "
+                      "returns its argument or strictly decreases a lexicographic measure: a polynomial interpretation with products for and/or [invariant under re-nesting, decreases when a quantifier moves out], "
+                      "the number of equality links with different sides [substitute_defined_variables], quantified general variables [restrict_quantifier_domain], quantified variables [remove_orphaned_variables]; "
+                      "the measure is monotone in every context, so every changing pass decreases it); fixpoint_bound_irrelevant / fixpoint_result_exists_unique (the result is the same for every sufficient bound, so "
+                      "the unbounded Rust loop has a well-defined result); fixpoint_idempotent / fixpoint_stable (simplifying the result again returns it unchanged). Determinism is definitional for the model and is "
+                      "the content of the tie for the implementation (process level: explored, see note).",
         "level_note": PROOF_NOTE + " Hash-seed and thread-timing effects on real processes are explored (two fresh processes), not proved.",
-        "technique": "Lean 4 proof (loop invariant of apply_fixpoint) + differential correspondence + repeated-process byte comparison",
+        "technique": "Lean 4 proof (well-founded lexicographic measure decreased by every rewrite, monotone in context; loop invariant of apply_fixpoint) + differential correspondence + repeated-process byte comparison",
         "design_ref": "DESIGN.md 6/C18",
         "trusted_base": COMMON_TRUST,
         "assumptions": COMMON_ASSUME,
